@@ -1239,6 +1239,10 @@ def classify(code, ck):
     that come from the same site and input class get one signature"""
     tc = tailclass(ck.tail)
     codes = {b[0] for b in ck.bad}
+    base_pw_ok = not any(c in codes for c in ('pointwise_eval-vs-ref', 'routes-call-vs-pointwise', 'pointwise_jacobian-vs-ref'))
+    if base_pw_ok and code.startswith(('pointwise_eval-layout', 'pointwise_eval(', 'pointwise_jacobian-layout', 'pointwise_jacobian(')):
+        # scattered evaluation is right for 1-D C arrays but not for multi-dimensional / non-C-contiguous coordinate arrays
+        return 'pointwise-array-layout:%s' % ('eval' if code.startswith('pointwise_eval') else 'jacobian')
     pw = code.startswith(('pointwise_eval', 'pointwise_jacobian', 'routes-'))
     if pw and ck.sdim != 2 and any(c.startswith(('pointwise_eval', 'routes-call')) for c in codes):
         return 'pointwise-axis-order:sdim%d' % ck.sdim           # tp_bsp_*_pointwise: XY[1-d]
@@ -1246,9 +1250,6 @@ def classify(code, ck):
         return 'pointwise-jacobian-slot:%s' % tc                 # tp_bsp_jac_pointwise: result[k, :, slot]
     if code.startswith('grid_hessian-raises') and ck.kind == 'bsp' and ck.tail == [1]:
         return 'hessian-dim1-vector'                             # grid_hessian of a (..., 1) coefficient array
-    if code.startswith(('pointwise_eval-layout', 'pointwise_eval(', 'pointwise_jacobian-layout', 'pointwise_jacobian(')):
-        # scattered evaluation of multi-dimensional / non-C-contiguous coordinate arrays
-        return 'pointwise-array-layout:%s' % ('eval' if code.startswith('pointwise_eval') else 'jacobian')
     if code == 'op-output-shape' and ck.kind == 'nurbs' and ck.tail == []:
         return 'nurbs-scalar-shape-lost'                         # NurbsFunc copy/boundary/translate/scale of a scalar function
     if code.startswith('ComposedFunction(scalar geo2)'):
